@@ -33,7 +33,7 @@ REGISTRY = dict(
 )
 
 HEADER = """From Coq Require Import List ZArith QArith Bool.
-From SB3V Require Import Model.Script Model.OnPolicyCollect Model.OffPolicyCollect.
+From SB3V Require Import Model.Script Model.OnPolicyCollect Model.OffPolicyCollect Model.Pipeline.
 Import ListNotations.
 """
 
@@ -53,7 +53,7 @@ def gen_case(rng, i):
     her = i % 11 == 7
     if her:
         obs = "goal"
-    return {"id": i, "her": her, "sde_freq": rng.choice([-1, 1, 2, 3]), "algo": algo, "n_envs": n_envs, "tf": tf, "obs": obs,
+    return {"id": i, "buffer_size": 120 if her else rng.choice([120, 120, rng.randint(2, 30)]), "her": her, "sde_freq": rng.choice([-1, 1, 2, 3]), "algo": algo, "n_envs": n_envs, "tf": tf, "obs": obs,
             "act": "discrete" if algo == "DQN" else rng.choice(["box", "box_asym", "box_asym"]),
             "noise": None if algo == "DQN" else rng.choice([None, "normal", "normal", "vec"]),
             "sde": algo == "SAC" and rng.random() < 0.3, "sde_warmup": rng.random() < 0.5,
@@ -141,7 +141,7 @@ def run_impl(case):
     pk = dict(net_arch=[8])
     if case["obs"] == "image":
         pk["features_extractor_kwargs"] = dict(features_dim=8)
-    kw = dict(train_freq=(case["tf"][1], case["tf"][0]), learning_starts=case["learning_starts"], batch_size=4, buffer_size=120, gradient_steps=1,
+    kw = dict(train_freq=(case["tf"][1], case["tf"][0]), learning_starts=case["learning_starts"], batch_size=4, buffer_size=case.get("buffer_size", 120), gradient_steps=1,
               policy_kwargs=pk, device="cpu", seed=case["seed"])
     if case["algo"] != "DQN":
         kw["action_noise"] = noise
@@ -249,6 +249,37 @@ def run_impl(case):
         call_info.append({"steps_before": len(steps), "noise_log_before": len(NOISE_LOG)})
         model.learn(total_timesteps=c["total"], reset_num_timesteps=c["reset"], callback=Marks())
         call_info[-1].update(steps_after=len(steps), nt_end=int(model.num_timesteps))
+    # everything sample() can return after learn(): every valid slot x every env column (the env index drawn inside _get_samples is forced)
+    samples = None
+    if not case.get("her"):
+        size = rb.buffer_size if rb.full else rb.pos
+        o_ri = np.random.randint
+        samples = []
+
+        def one_tag(o):
+            try:
+                if case["vecnorm"]:
+                    o = {k: np.rint(np.asarray(v, dtype=np.float64)) for k, v in o.items()} if isinstance(o, dict) else np.rint(np.asarray(o, dtype=np.float64))
+                return collapse(se.decode(dspace, o))
+            except se.MixedObservation as ex:
+                return f"mixed:{ex}"
+
+        for e in range(ne):
+            np.random.randint = lambda low, high=None, size=None, e=e, **k: np.full(size, e)
+            try:
+                smp = rb._get_samples(np.arange(size), env=None) if size > 0 else None
+            finally:
+                np.random.randint = o_ri
+            col_s = []
+            for i in range(size):
+                if isinstance(smp.observations, dict):
+                    ob = {k: v[i].numpy() for k, v in smp.observations.items()}
+                    nx = {k: v[i].numpy() for k, v in smp.next_observations.items()}
+                else:
+                    ob, nx = smp.observations[i].numpy(), smp.next_observations[i].numpy()
+                col_s.append({"obs": one_tag(ob), "next": one_tag(nx), "action": smp.actions[i].numpy().astype(np.float64).reshape(-1).tolist(),
+                              "reward": float(smp.rewards[i].item()), "done": float(smp.dones[i].item())})
+            samples.append(col_s)
     # buffer arrays after learn()
     n = len(adds)
     buf = None
@@ -277,7 +308,8 @@ def run_impl(case):
         her_infos = [[int(rb.infos[i][e].get("tag", -1)) for e in range(ne)] for i in range(min(n, rb.buffer_size))]
     return {"steps": steps, "adds": adds, "calls": call_info, "gt": [base.envs[e].gt for e in range(ne)], "space": sp, "buffer": buf,
             "noise_events": ["".join(ev) for ev in noise_events], "rollout_starts": rollout_starts, "sde_resets": sde_resets,
-            "use_sde": bool(getattr(model, "use_sde", False)), "her_infos": her_infos}
+            "use_sde": bool(getattr(model, "use_sde", False)), "her_infos": her_infos, "samples": samples, "capacity": int(rb.buffer_size),
+            "dict_buffer": isinstance(rb.observations, dict)}
 
 
 def _worker(case):
@@ -387,6 +419,35 @@ def oracle(case, impl):
                 if g < len(gt[e]) and row[e] != gt[e][g]["info"]:
                     probs.append(("oracle-her-info", f"HerReplayBuffer.infos[{g}][{e}] carries info tag {row[e]}, the env's step {g} had {gt[e][g]['info']}"))
                     break
+    # end to end: whatever the buffer can return is a real transition of that env among the last `capacity` ones
+    if impl.get("samples") is not None and adds:
+        N, cap = len(adds), impl["capacity"]
+        size = min(N, cap)
+        for e in range(ne):
+            if len(impl["samples"][e]) != size:
+                probs.append(("oracle-pipeline-sample-count", f"env {e}: {len(impl['samples'][e])} drawable slots after {N} adds with capacity {cap}"))
+                continue
+            for idx, sm in enumerate(impl["samples"][e]):
+                k = idx if N <= cap else next(q for q in range(N - cap, N) if q % cap == idx)
+                if k >= len(gt[e]):
+                    continue
+                s = gt[e][k]
+                vn = adds[k].get("vn", {}).get(e) if case.get("vecnorm") else None
+                want_done = 1.0 if (s["done"] and not (s["trunc"] and not s["term"])) else 0.0
+                bad = []
+                if sm["obs"] != s["saw"]:
+                    bad.append(f"observation {sm['obs']} != observation acted on {s['saw']}")
+                if sm["next"] != s["tag"] and vn is None:
+                    bad.append(f"next observation {sm['next']} != true successor {s['tag']}" + (" (it is the auto-reset observation)" if sm["next"] == s["returned"] and s["done"] else ""))
+                if abs(sm["reward"] - s["r"]) > 1e-6:
+                    bad.append(f"reward {sm['reward']} != raw env reward {s['r']}")
+                if sm["done"] != want_done:
+                    bad.append(f"done {sm['done']} != {want_done} (terminated={s['term']}, truncated={s['trunc']}; time-limit endings are masked)")
+                if not np.allclose(sm["action"], adds[k]["action"][e], atol=1e-6):
+                    bad.append(f"action {sm['action']} != stored action of that step {adds[k]['action'][e]}")
+                if bad:
+                    probs.append(("oracle-pipeline-sample", f"slot {idx} env {e} (= transition {k} of {N}, capacity {cap}): " + "; ".join(bad)))
+                    break
     b = impl["buffer"]
     if b is not None:
         if b["pos"] != len(adds):
@@ -415,6 +476,7 @@ def model_exprs(case, impl):
     tf = ("TfStep " if case["tf"][0] == "step" else "TfEpis ") + coq_Z(case["tf"][1])
     gt = ground_truth(case, impl)
     exprs = []
+    ORCS, ALL_ORCS = {}, []
     for e in range(ne):
         calls, impls = [], []
         for ci, (c, info) in enumerate(zip(case["calls"], impl["calls"])):
@@ -429,9 +491,14 @@ def model_exprs(case, impl):
                 envact = gt[e][g]["action"] if g < len(gt[e]) else []
                 ba = impl["adds"][g]["action"][e] if g < len(impl["adds"]) else []
                 im.append(f"({coq_list(ba, fq)}, {coq_list(envact, fq)})")
+            ORCS[(e, ci)] = orcs
             calls.append(f"mkOC {coq_Z(c['total'])} {coq_bool(c['reset'])} {coq_bool(c['reset'] or ci == 0)} {coq_list(orcs)}")
             impls.append(coq_list(im))
         exprs.append(f"check_off (1 # 100000)%Q (1 # 100000)%Q {ak} {se.coq_script(case['scripts'][e])} {coq_Z(ne)} ({tf}) {coq_list(calls)} {coq_list(impls)}")
+        ALL_ORCS.append([o for ci, (c, info) in enumerate(zip(case["calls"], impl["calls"])) for o in ORCS[(e, ci)]])
+    if pipeline_applicable(case, impl):
+        envs = [f"mkEC {se.coq_script(case['scripts'][e])} (os_reset {se.coq_script(case['scripts'][e])} ostate0) {coq_list(ALL_ORCS[e])}" for e in range(ne)]
+        exprs.append(f"pipeline_table {coq_bool(impl['dict_buffer'])} {coq_Z(case.get('buffer_size', 120))} true {ak} {coq_list(envs)} {common.coq_nat(len(impl['adds']))}")
     if impl.get("use_sde"):
         starts = impl["rollout_starts"] + [len(impl["steps"])]
         ks = [starts[r + 1] - starts[r] for r in range(len(starts) - 1)]
@@ -439,18 +506,45 @@ def model_exprs(case, impl):
     return exprs
 
 
+def pipeline_applicable(case, impl):
+    """the composed model Model.Pipeline.pipeline_table describes one uninterrupted collection"""
+    return (impl.get("samples") is not None and not case.get("vecnorm") and all(not c["reset"] for c in case["calls"][1:])
+            and 0 < len(impl["adds"]) < 4000)
+
+
 def compare(case, impl, vals):
     probs = []
     ne = case["n_envs"]
+    if pipeline_applicable(case, impl):
+        table = vals[ne]
+        if table is None or not isinstance(table, tuple) or table[0] != "Some":
+            probs.append(("pipeline-table", f"model refuses the buffer configuration: {table}"))
+        else:
+            rows = table[1]
+            size = len(impl["samples"][0]) if impl["samples"] else 0
+            if len(rows) != size:
+                probs.append(("pipeline-table", f"model has {len(rows)} drawable slots, impl {size}"))
+            for d, cols in rows[:size]:
+                for e in range(ne):
+                    ob, _, nx, dn, rw = cols[e]
+                    sm = impl["samples"][e][d]
+                    if (sm["obs"], sm["next"], sm["done"], sm["reward"]) != (ob, nx, float(dn), rw / 4.0):
+                        probs.append(("pipeline-sample", f"slot {d} env {e}: impl sample (obs, next, done, reward) {(sm['obs'], sm['next'], sm['done'], sm['reward'])}, "
+                                                         f"Model.Pipeline {(ob, nx, float(dn), rw / 4.0)}"))
+                        break
+                else:
+                    continue
+                break
     if impl.get("use_sde"):
         starts = impl["rollout_starts"] + [len(impl["steps"])]
         got = []
         for r in range(len(starts) - 1):
             last = r == len(starts) - 2
             got.append([p - starts[r] for p in impl["sde_resets"] if starts[r] <= p and (last or p < starts[r + 1])])
-        if got != vals[ne]:
-            r = next((q for q in range(min(len(got), len(vals[ne]))) if got[q] != vals[ne][q]), 0)
-            probs.append(("sde-resample-positions", f"rollout {r}: impl reset_noise positions {got[r] if r < len(got) else None}, model {vals[ne][r] if r < len(vals[ne]) else None}"))
+        sv = vals[ne + (1 if pipeline_applicable(case, impl) else 0)]
+        if got != sv:
+            r = next((q for q in range(min(len(got), len(sv))) if got[q] != sv[q]), 0)
+            probs.append(("sde-resample-positions", f"rollout {r}: impl reset_noise positions {got[r] if r < len(got) else None}, model {sv[r] if r < len(sv) else None}"))
     for e in range(ne):
         if len(vals[e]) != len(impl["calls"]):
             probs.append(("call-count", f"env {e}: model {len(vals[e])} calls"))
@@ -533,6 +627,9 @@ def main():
         hist["sde"] += int(bool(c.get("sde")))
         if not im.get("error"):
             hist["adds"] += len(im["adds"])
+            hist["samples_checked"] = hist.get("samples_checked", 0) + sum(len(x) for x in (im.get("samples") or []))
+            hist["wrapped_buffers"] = hist.get("wrapped_buffers", 0) + int(len(im["adds"]) > im.get("capacity", 10**9))
+            hist["pipeline_model_runs"] = hist.get("pipeline_model_runs", 0) + int(pipeline_applicable(c, im))
             hist["done_adds"] += sum(sum(a["done"]) for a in im["adds"])
             hist["both_flag_steps"] += sum(1 for col in im["gt"] for s in col if s[0] == "step" and s[3] and s[4])
             nts = [s["nt"] for s in im["steps"]]
